@@ -344,11 +344,15 @@ def compile_script(script, width=6):
         code, ex = comp_body(h['body'], cx)
         if ex:
             raise SpecError('exit repeat outside a loop')
-        code += b'\x01'
+        code += b'\x02' if h.get('method') else b'\x01'
         args = [0 if (h.get('method') and i == 0) else names.index(a) for i, a in enumerate(h['args'])]
         funcs.append((names.index(h['name']), code, args, [names.index(l) for l in h['locals']]))
     consts = pool.items
-    return assemble(funcs, consts, [names.index(p) for p in script.get('props', [])],
+    props = [names.index(p) for p in script.get('props', [])]
+    if script.get('factory'):
+        # a factory's property block starts with three entries that are not instance variables
+        props = [-1, names.index('me') if 'me' in names else 0, 0] + props
+    return assemble(funcs, consts, props,
                     [names.index(g) for g in script.get('globals', [])],
                     names.index(script['factory']) if script.get('factory') else -1, script.get('scr_num', 0), width)
 
@@ -675,8 +679,11 @@ def parse_lingo(text):
         if h['method']:
             h['args'] = ['me'] + h['args']
         i += 1
-        while i < len(lines) and lines[i][0] == ('id', 'global'):
-            h['globals'] += idlist(lines[i][1:])
+        while i < len(lines) and lines[i][0] in (('id', 'global'), ('id', 'instance')):
+            if lines[i][0][1] == 'instance':
+                script['props'] += idlist(lines[i][1:])       # instance variables of the factory
+            else:
+                h['globals'] += idlist(lines[i][1:])
             i += 1
         # collect body lines up to the matching 'end'
         depth = 0
@@ -1034,6 +1041,8 @@ def pp_lingo(script):
         first = False
         args = h['args'][1:] if h.get('method') else h['args']
         s += ('method ' if h.get('method') else 'on ') + h['name'] + ((' ' + ', '.join(args)) if args else '') + '\n'
+        if h.get('method') and h['name'].lower() == 'mnew' and script.get('factory') and script.get('props'):
+            s += '    instance %s\n\n' % ', '.join(script['props'])
         gl = handler_globals(h, script)
         for g in gl:
             s += '    global %s\n' % g
